@@ -272,6 +272,7 @@ def check_programs(chk):
     for label, files, to_gen, param in (
             ("client_api/grpc+rest", apis.client_api(), None, "transport=grpc+rest"),
             ("paging_api/grpc", apis.paging_api(), None, "transport=grpc"),
+            ("unversioned-package", unversioned_api(), None, "transport=grpc"),
             ("three-files+dep", two_file_api(), ["google/example/tf/v1/a.proto", "google/example/tf/v1/b_c.proto",
                                                  "google/example/tf/v1/b.c.proto"], "transport=rest,unknown-opt=1,python-gapic-bogus=2")):
         # expectations are computed from the descriptors BEFORE generation (API.build renames fd.name in place)
@@ -330,6 +331,14 @@ def check_programs(chk):
 def _snake(name):
     import re
     return re.sub(r"(?<!^)(?=[A-Z])", "_", name).lower()
+
+
+def unversioned_api():
+    fb = gen.FileBuilder("google/example/uv/uv.proto", "google.example.uv")
+    fb.message("Req", [("name", "string")])
+    s = fb.service("Uv")
+    fb.method(s, "Get", "Req", "Req", http=("get", "/v1/{name=x/*}"))
+    return [fb]
 
 
 def two_file_api():
